@@ -103,7 +103,7 @@ pub fn run(ctx: &Ctx) -> Report {
     Report {
         acc,
         exhaustive: true,
-        rule: "every 16-bit type-field value; every (class, method) pair 4x4096; transaction ids: walking one/zero over 128 bits, every byte lane x 256 values x 3 backgrounds, 16-bit windows at every bit offset, boundary patterns; each case is distinct by construction".into(),
+        rule: "every 16-bit type-field value; every (class, method) pair 4x4096 (also as the header of messages carrying one attribute of each of 8 kinds, built directly and after into_owned); transaction ids: walking one/zero over 128 bits, every byte lane x 256 values x 3 backgrounds, 16-bit windows at every bit offset, boundary patterns; each case is distinct by construction".into(),
         bounds: json!({"type_field_values": 65536, "class_method_pairs": 16384, "tids": "~13 000 (see rule)", "generate_observations": 100000}),
         assumptions: vec!["TransactionId::generate(): only the masking constructor it goes through is enumerated; RNG output is observed, not explored".into()],
         ..Default::default()
@@ -173,6 +173,43 @@ pub fn judge(case: &Case, acc: &mut Acc) {
             match MessageType::from_bytes(&two) {
                 Ok(back) if back == mt => {}
                 other => viol!(acc, P, "bytes-roundtrip", case, "from_bytes(to_bytes(t)) != t", format!("{mt:?}"), format!("{other:?}")),
+            }
+            // the header fields do not depend on what the message carries: one attribute of each kind
+            // (typed ERROR-CODE, raw 0x0009, SOFTWARE, XOR-MAPPED-ADDRESS, UNKNOWN-ATTRIBUTES, a raw
+            // unknown type), then integrity and fingerprint, on builders of this (class, method)
+            {
+                use stun_types::attribute::*;
+                let tidv: u128 = 0x0F0E_0D0C_0B0A_0908_0706_0504;
+                let ec = ErrorCode::new(438, "Stale Nonce").unwrap();
+                let sw = Software::new("x").unwrap();
+                let xa = XorMappedAddress::new("192.0.2.1:3478".parse().unwrap(), tidv.into());
+                let ua = UnknownAttributes::new(&[0x7F00.into()]);
+                let creds: stun_types::message::MessageIntegrityCredentials = stun_types::message::ShortTermCredentials::new("pw".to_owned()).into();
+                for which in 0..8u8 {
+                    let mut b = real::builder(c, m, tidv);
+                    let r = match which {
+                        0 => b.add_attribute(&ec).map_err(|e| format!("{e:?}")),
+                        1 => b.add_raw_attribute(RawAttribute::new(0x0009.into(), &[0, 0, 4, 1, b'x'])).map_err(|e| format!("{e:?}")),
+                        2 => b.add_attribute(&sw).map_err(|e| format!("{e:?}")),
+                        3 => b.add_attribute(&xa).map_err(|e| format!("{e:?}")),
+                        4 => b.add_attribute(&ua).map_err(|e| format!("{e:?}")),
+                        5 => b.add_raw_attribute(RawAttribute::new(0xC0DE.into(), &[1, 2, 3])).map_err(|e| format!("{e:?}")),
+                        6 => b.add_message_integrity(&creds, stun_types::message::IntegrityAlgorithm::Sha1).map_err(|e| format!("{e:?}")),
+                        _ => b.add_message_integrity(&creds, stun_types::message::IntegrityAlgorithm::Sha256).and_then(|_| b.add_fingerprint()).map_err(|e| format!("{e:?}")),
+                    };
+                    if r.is_err() {
+                        continue;
+                    }
+                    let owned = b.clone().into_owned();
+                    for (name, bytes) in [("build", b.build()), ("into_owned+build", owned.build())] {
+                        if bytes.len() < 20 || bytes[0..2] != two || bytes[4..8] != [0x21, 0x12, 0xA4, 0x42] || bytes[8..20] != tidv.to_be_bytes()[4..16] {
+                            viol!(acc, P, "header-depends-on-attributes", case, format!("the header of a built message changed with the attribute it carries (variant {which}, {name})"), format!("{} .... 2112a442 {:024x}", crate::refimpl::crypto::hex(&two), tidv), fmt_bytes(&bytes[..bytes.len().min(20)]));
+                        }
+                    }
+                    if !b.has_class(real::class_of(c)) {
+                        viol!(acc, P, "builder-class-depends-on-attributes", case, format!("has_class of the builder changed with the attribute it carries (variant {which})"), format!("class {c}"), "another class");
+                    }
+                }
             }
             // through a whole message header
             let b = real::builder(c, m, 7).build();
